@@ -91,7 +91,7 @@ COLLECT_HEAD = '''let ghost c0 = self.cfg();
                 invariant obeys_key_model::<String>(), self.cfg() == c0, c0 == old(self).cfg(), mapped(c0, *base) is None,
                     forall|k: int| 0 <= k < parameters@.len() ==> dom(#[trigger] parameters@[k]),
                     acc@.len() == it.index@,
-                    forall|k: int| 0 <= k < it.index@ ==> tx_ok(c0, generic_types@, #[trigger] parameters@[k], acc@[k]@),
+                    /*C05*/ forall|k: int| 0 <= k < it.index@ ==> tx_ok(c0, generic_types@, #[trigger] parameters@[k], acc@[k]@),
             {
                 proof { assert(parameters@[it.index@] == *p); assert(decreases_to!(parameters@ => parameters@[it.index@])); }
                 match ('''
@@ -103,7 +103,7 @@ COLLECT_TAIL = ''') {
             proof {
                 let ps = strs(acc@);
                 assert(ps.len() == parameters@.len());
-                assert forall|k: int| 0 <= k < parameters@.len() implies tx_ok(c0, generic_types@, #[trigger] parameters@[k], ps[k]) by {}
+                /*C05*/ assert forall|k: int| 0 <= k < parameters@.len() implies tx_ok(c0, generic_types@, #[trigger] parameters@[k], ps[k]) by {}
             }
             let parameters = acc;'''
 
